@@ -64,6 +64,7 @@ func newGen(prog *ssa.Program, pkg *ssa.Package, specs *SpecSet) *Gen {
 }
 
 var noRetryFlag bool
+var siteCoversFlag bool
 
 func main() {
 	repo := flag.String("repo", "/repo", "repository directory")
@@ -79,10 +80,12 @@ func main() {
 	jsonOut := flag.String("json", "", "write machine-readable results to this file")
 	loopsOf := flag.String("loops", "", "print the loop ordinals (with source positions) of the named function and exit")
 	noRetry := flag.Bool("noretry", false, "do not restart obligations on which a solver ran out of time (used when a failure is the expected outcome)")
+	siteCovers := flag.Bool("sitecovers", false, "add a consistency cover after every call whose contract was assumed (thorough tier)")
 	flag.Parse()
 
 	initScratch()
 	noRetryFlag = *noRetry
+	siteCoversFlag = *siteCovers
 	defer cleanupScratch()
 	t0 := time.Now()
 	if strings.Contains(*tags, "vectors") && *overlay == "" {
